@@ -100,10 +100,46 @@ func (u *Universe) checkG1() []*Oblig {
 						if !ok || v.Pkg() == nil || v.Parent() != v.Pkg().Scope() {
 							break
 						}
-						if _, isMap := v.Type().Underlying().(*types.Map); !isMap {
+						if _, inRepo := pkgAlias[v.Pkg().Path()]; !inRepo {
 							break
 						}
-						if _, inRepo := pkgAlias[v.Pkg().Path()]; !inRepo {
+						if _, isMap := v.Type().Underlying().(*types.Map); !isMap {
+							// values of basic types and error values are immutable (assignments to the variable itself are
+							// reported above); anything else (slices, pointers, structs, pools, ...) may only be indexed,
+							// ranged over or measured
+							switch ut := v.Type().Underlying().(type) {
+							case *types.Basic:
+								return true
+							case *types.Interface:
+								if types.Identical(v.Type(), types.Universe.Lookup("error").Type()) {
+									return true
+								}
+								_ = ut
+							}
+							okUse := false
+							if len(stack) >= 2 {
+								par := stack[len(stack)-2]
+								if sel, isSel := par.(*ast.SelectorExpr); isSel && sel.Sel == x && len(stack) >= 3 {
+									par = stack[len(stack)-3] // qualified identifier pkg.Var
+								}
+								switch pp := par.(type) {
+								case *ast.IndexExpr:
+									if _, isSlice := v.Type().Underlying().(*types.Slice); isSlice || isArrayType(v.Type()) {
+										okUse = pp.X == ast.Expr(x) || isQualOf(pp.X, x)
+									}
+								case *ast.RangeStmt:
+									okUse = pp.X == ast.Expr(x) || isQualOf(pp.X, x)
+								case *ast.CallExpr:
+									if id, ok := pp.Fun.(*ast.Ident); ok {
+										if b, ok := info.Uses[id].(*types.Builtin); ok && (b.Name() == "len" || b.Name() == "cap") {
+											okUse = true
+										}
+									}
+								}
+							}
+							if !okUse {
+								report(x.Pos(), "package-level variable "+v.Name()+" of a mutable type ("+v.Type().String()+") is used other than by index / range / len (it may be aliased, escape or be mutated)")
+							}
 							break
 						}
 						// allowed parents: IndexExpr.X, RangeStmt.X, receiver of a method call of a read-only helper (getNameInLang)
@@ -195,4 +231,15 @@ func (u *Universe) checkSentinels() []*Oblig {
 		out = append(out, &Oblig{Name: "sentinels#pairwise-distinct(11 errors.New values)", Kind: "g1", Goal: tTrue, Result: "unsat", Solver: "syntactic"})
 	}
 	return out
+}
+
+func isArrayType(t types.Type) bool {
+	_, ok := t.Underlying().(*types.Array)
+	return ok
+}
+
+// isQualOf: e is the qualified identifier pkg.x
+func isQualOf(e ast.Expr, x *ast.Ident) bool {
+	sel, ok := e.(*ast.SelectorExpr)
+	return ok && sel.Sel == x
 }
